@@ -29,6 +29,9 @@ import (
 // about `slow` µs (so that at the end of the run several instances are in their last shoot while others have
 // already finished) and then makes R Report calls to the pool's REAL aggregator (phout / jsonlines).
 //
+//	disc=<ms>  the instances' schedule (200 tokens/s) was started <ms> milliseconds ago and the pool discards overflow:
+//	           for every token that is 2 s or more overdue the ENGINE itself reports a "discarded" sample instead of
+//	           shooting (instance.Run); those lines must be there too: gun reports + (ammo - shots) discarded samples
 //	cancel=-1  the run ends by itself: the result is judged at the moment Engine.Run returns nil (no Wait, no sleep)
 //	cancel=c   the context given to Engine.Run is cancelled during shoot number c of pool 0 (SIGINT/SIGTERM do that);
 //	           the result is judged after Engine.Wait(); only the Report calls completed before the cancel must be there
@@ -130,7 +133,7 @@ func (g *engGun) Shoot(core.Ammo) {
 }
 
 type engSnap struct {
-	lines, bad, dup, order, miss, closed int
+	lines, bad, dup, order, miss, closed, disc int
 	dropped                             int64
 	err                                 string
 	aggReturned                         bool
@@ -179,6 +182,10 @@ func (p *engPool) snapshot(pre int64) engSnap {
 				gi, ki = js.R, js.K
 			}
 		}
+		if !ok && isDiscardedLine(p.agg, l) {
+			sn.disc++ // reported by the engine itself for an overdue token (instance.Run, discard_overflow)
+			continue
+		}
 		e := [2]int{gi, ki}
 		if ok && seqOf[e] == 0 {
 			// may be a Report that is still in flight (written, sequence number not yet recorded): only
@@ -207,6 +214,32 @@ func (p *engPool) snapshot(pre int64) engSnap {
 	return sn
 }
 
+// isDiscardedLine: the line of netsample.DiscardedShootSample(): phout "<ts>\tdiscarded#0\t0…\t777\t0"; jsonlines
+// "{}" (the sample has no exported fields)
+func isDiscardedLine(agg string, l []byte) bool {
+	if agg != "phout" {
+		return string(l) == "{}"
+	}
+	cols := bytes.Split(l, []byte{'\t'})
+	if len(cols) != 12 || string(cols[1]) != "discarded#0" {
+		return false
+	}
+	ts := bytes.Split(cols[0], []byte{'.'})
+	if len(ts) != 2 || len(ts[1]) != 3 {
+		return false
+	}
+	for i, c := range cols[2:] {
+		want := "0"
+		if i == 8 {
+			want = "777"
+		}
+		if string(c) != want {
+			return false
+		}
+	}
+	return true
+}
+
 func runEngine(kv map[string]string) string {
 	agg := kv["agg"]
 	pools, inst, ammo, per, q := atoi(kv["pools"]), atoi(kv["inst"]), atoi(kv["ammo"]), atoi(kv["per"]), atoi(kv["q"])
@@ -216,6 +249,7 @@ func runEngine(kv map[string]string) string {
 	if pools < 1 || inst < 1 || per < 1 || q < 1 {
 		return "err=bad-input"
 	}
+	discMs := atoi(kv["disc"])
 	ctx, cancel := context.WithCancel(context.Background())
 	defer cancel()
 	var seq, pre atomic.Int64
@@ -263,9 +297,17 @@ func runEngine(kv map[string]string) string {
 				id := int(pp.guns.Add(1)) - 1
 				return &engGun{p: pp, id: id, r: rand.New(rand.NewSource(seed*131 + int64(pp.idx)*17 + int64(id)))}, nil
 			},
-			RPSPerInstance:  true,
-			NewRPSSchedule:  func() (core.Schedule, error) { return schedule.NewUnlimited(time.Hour), nil },
+			RPSPerInstance: true,
+			NewRPSSchedule: func() (core.Schedule, error) {
+				if discMs > 0 {
+					sc := schedule.NewConst(200, time.Hour)
+					sc.Start(time.Now().Add(-time.Duration(discMs) * time.Millisecond))
+					return sc, nil
+				}
+				return schedule.NewUnlimited(time.Hour), nil
+			},
 			StartupSchedule: startup,
+			DiscardOverflow: discMs > 0,
 		})
 	}
 	m := engine.Metrics{Request: &monitoring.Counter{}, Response: &monitoring.Counter{},
@@ -321,6 +363,7 @@ func runEngine(kv map[string]string) string {
 	allRet := true
 	for _, s := range snaps {
 		tot.lines += s.lines
+		tot.disc += s.disc
 		tot.bad += s.bad
 		tot.dup += s.dup
 		tot.miss += s.miss
@@ -345,8 +388,18 @@ func runEngine(kv map[string]string) string {
 	if errS == "nil" && tot.dropped != 0 {
 		errS = fmt.Sprintf("dropped:%d", tot.dropped)
 	}
-	return fmt.Sprintf("run=%s reports=%d pre=%d lines=%d dropped=%d err=%s order=%d dup=%d bad=%d closed=%d miss=%d aggret=%d",
-		runS, made, preV, tot.lines, tot.dropped, errS, tot.order, tot.dup, tot.bad, tot.closed, tot.miss, b2i(allRet))
+	obs := fmt.Sprintf("run=%s reports=%d pre=%d lines=%d dropped=%d err=%s order=%d dup=%d bad=%d closed=%d miss=%d aggret=%d",
+		runS, made, preV, tot.lines-tot.disc, tot.dropped, errS, tot.order, tot.dup, tot.bad, tot.closed, tot.miss, b2i(allRet))
+	if discMs > 0 {
+		var shots int64
+		for _, p := range ps {
+			shots += p.shots.Load()
+		}
+		obs += fmt.Sprintf(" disc=%d wantdisc=%d", tot.disc, int64(pools*ammo)-shots)
+	} else if tot.disc != 0 {
+		obs += fmt.Sprintf(" disc=%d wantdisc=0", tot.disc)
+	}
+	return obs
 }
 
 var _ io.Writer = (*trackFile)(nil)
